@@ -31,6 +31,12 @@ R1.A metadata write-through: every key given to store_metadata is assigned
      to the HDF5 attributes on every non-raising iteration.
 R1.B stored features win: RTDCBase.__getitem__ tests `self._events` before
      any exit that serves ancillary or basin data.
+R1.C arguments stay the caller's: a `store_*` method (and the writer methods
+     it hands its arguments to) changes an object reached from a parameter
+     in place only through a private copy that is deep enough for the level
+     that is changed (deepcopy / section-wise copy; a shallow copy shares
+     the nested containers) – otherwise the next writer given the same
+     object stores what this call left in it.
 R1.9 reader memo independent of the request: a value a lazy reader caches
      on `self` never depends on named per-call arguments (dtype, copy,
      index) unless the argument is the key of a mapping memo.
@@ -60,6 +66,12 @@ ASSUMPTIONS = [
     "the numpy array protocol) nor mutation of a memo through method calls "
     "(append, setdefault); private helpers and constructors are out of "
     "scope.",
+    "R1.C follows item / attribute assignment, del and the mutating "
+    "container methods on values reached from the parameters of store_* "
+    "(through aliases, element access, loop targets, shallow / deep copies "
+    "and self.<method> calls); NOT decided: augmented assignment to a bare "
+    "name (`data += 1`), mutation inside functions outside RTDCWriter, and "
+    "HDF5 objects handed in by the caller (writing to them is the purpose).",
 ]
 
 WR = "dclab/rtdc_dataset/writer.py"
@@ -3687,6 +3699,13 @@ class _Ownership:
             elif isinstance(n, ast.NamedExpr):
                 tg = [(n.target, n.value, "is")]
             for t, v, how in tg:
+                if how == "elem":
+                    # loop target: bound position by position
+                    for e in ast.walk(t):
+                        if isinstance(e, ast.Name):
+                            self.defs.setdefault(e.id, []).append(
+                                (n, (t, v), "for"))
+                    continue
                 if isinstance(t, ast.Name):
                     self.defs.setdefault(t.id, []).append((n, v, how))
                 elif isinstance(t, (ast.Tuple, ast.List)):
@@ -3766,7 +3785,7 @@ class _Ownership:
         if isinstance(e, ast.Name):
             g = self._comp_binding(e)
             if g is not None:
-                return self._elem(self.own(g.iter))
+                return self._bound(g.target, self._elem_struct(g.iter), e.id)
             key = (e.id, id(e))
             if key in self.busy:
                 return None
@@ -3778,7 +3797,10 @@ class _Ownership:
                         vals.append(0 if e.id in self.params else None)
                         continue
                     n, v, how = d
-                    if how == "is":
+                    if how == "for":
+                        vals.append(self._bound(
+                            v[0], self._elem_struct(v[1]), e.id))
+                    elif how == "is":
                         vals.append(self.own(v))
                     elif how in ("elem", "part"):
                         vals.append(self._elem(self.own(v)))
@@ -3887,6 +3909,47 @@ class _Ownership:
                           ast.Lambda, ast.FormattedValue)):
             return None
         return "?"
+
+    def _elem_struct(self, it):
+        """what one iteration of `it` yields: ("val", ownership) or
+        ("tuple", [one entry per position]) for zip / enumerate / items"""
+        if isinstance(it, ast.Call) and not it.keywords and not any(
+                isinstance(a, ast.Starred) for a in it.args):
+            fn = dotted(it.func) or ""
+            if fn == "zip" and it.args:
+                return ("tuple", [self._elem_struct(a) for a in it.args])
+            if fn == "enumerate" and it.args:
+                return ("tuple", [("val", None),
+                                  self._elem_struct(it.args[0])])
+            if isinstance(it.func, ast.Attribute) and it.func.attr == "items" \
+                    and not it.args:
+                return ("tuple", [("val", None), ("val", self._elem(
+                    self.own(it.func.value)))])
+        return ("val", self._elem(self.own(it)))
+
+    def _bound(self, target, struct, name):
+        """ownership of `name` where `target` is bound to `struct`"""
+        if isinstance(target, ast.Name):
+            if struct[0] == "val":
+                return struct[1]
+            return self._low([self._bound(target, s_, name)
+                              for s_ in struct[1]])
+        if isinstance(target, ast.Starred):
+            return self._bound(target.value, struct, name)
+        if isinstance(target, (ast.Tuple, ast.List)):
+            elts = target.elts
+            if struct[0] == "tuple" and len(struct[1]) == len(elts) \
+                    and not any(isinstance(x, ast.Starred) for x in elts):
+                parts = struct[1]
+            else:
+                k = struct[1] if struct[0] == "val" else self._low(
+                    [self._bound(ast.Name(id=name, ctx=ast.Load()), s_, name)
+                     for s_ in struct[1]])
+                parts = [("val", self._elem(k))] * len(elts)
+            for x, s_ in zip(elts, parts):
+                if name in names_in(x):
+                    return self._bound(x, s_, name)
+        return None
 
     def own_at(self, name, stmt):
         """ownership of `name` as it arrives at `stmt`"""
